@@ -124,29 +124,31 @@ Row(vs, ps) ==
      wind |-> Each(LAMBDA i : Wind(on[i], sin[i], a2), n)]
 
 (* ---------------------------------------------------------------- cases *)
-\* The cases are dealt into NShards shards.  The model starts in one marker state per shard; the single step
-\* Emit(k) computes the rows of shard k, writes them as JSON for the harness (binding C) and moves to each of
-\* them, so that TLC's workers share the work and every row is a state on which the lemmas are checked.
+\* The cases are dealt into shards.  The model starts in one marker state per shard; the single step Emit
+\* computes the rows of that shard, writes them as JSON for the harness (binding C) and moves to each of them,
+\* so that TLC's workers share the work and every row is a state on which the lemmas are checked.
 GridSeq == [k \in 1..(N * N) |-> <<(k - 1) \div N, (k - 1) % N>>]
 GridSet == {GridSeq[k] : k \in 1..(N * N)}
-\* grid source: shard k has the polygons whose first two vertices are the q-th pair of grid points, q % NShards = k
+\* grid source: shard (k, n) has the polygons of n vertices whose first two vertices are the q-th pair of grid
+\* points with q % NShards = k
 FirstTwo(k) == {<<GridSeq[q[1]], GridSeq[q[2]]>> : q \in {q \in (1..(N * N)) \X (1..(N * N)) : ((q[1] - 1) * N * N + q[2]) % NShards = k}}
-\* (written so that TLC never builds the set of all candidate sequences, only the simple ones)
-GridPolys(k) == UNION {UNION {{f \o r : r \in {r \in [1..(n - 2) -> GridSet] : Simple(f \o r)}} : f \in FirstTwo(k)} : n \in MinV..MaxV}
+GridPolys(k, n) == {vs \in {f \o r : f \in FirstTwo(k), r \in [1..(n - 2) -> GridSet]} : Simple(vs)}
 
-\* file source: a sequence of [vs |-> <<<<x, y>>, ...>>, ps |-> <<<<x, y>>, ...>>]; figures that are not simple are dropped
+\* file source: a sequence of [vs |-> <<<<x, y>>, ...>>, ps |-> <<<<x, y>>, ...>>]; figures that are not simple are
+\* dropped; shard (k, 0) has the cases i with i % NShards = k
 FileCases == JsonDeserialize(IOEnv.CASES_IN)
 
-ShardRows(k) == IF Source = "grid" THEN {Row(v, GridSeq) : v \in GridPolys(k)}
-                ELSE {Row(FileCases[i].vs, FileCases[i].ps) : i \in {i \in 1..Len(FileCases) : i % NShards = k /\ Simple(FileCases[i].vs)}}
+ShardRows(k, n) == IF Source = "grid" THEN {Row(v, GridSeq) : v \in GridPolys(k, n)}
+                   ELSE {Row(FileCases[i].vs, FileCases[i].ps) : i \in {i \in 1..Len(FileCases) : i % NShards = k /\ Simple(FileCases[i].vs)}}
 
 IsRow == "vs" \in DOMAIN row
-Init == row \in {[shard |-> k] : k \in Only}
-Emit(k) == /\ ~IsRow /\ row.shard = k
-           /\ LET rs == ShardRows(k) IN
-              /\ JsonSerialize(IOEnv.TABLE_OUT \o "-" \o ToString(k) \o ".json", SetToSeq(rs))
-              /\ row' \in rs
-Next == \E k \in Only : Emit(k)
+Markers == {[shard |-> k, n |-> n] : k \in Only, n \in IF Source = "grid" THEN MinV..MaxV ELSE {0}}
+Init == row \in Markers
+Emit == /\ ~IsRow
+        /\ LET rs == ShardRows(row.shard, row.n) IN
+           /\ JsonSerialize(IOEnv.TABLE_OUT \o "-" \o ToString(row.shard) \o "-" \o ToString(row.n) \o ".json", SetToSeq(rs))
+           /\ row' \in rs
+Next == Emit
 Spec == Init /\ [][Next]_row
 
 Idx == 1..Len(row.ps)
